@@ -216,6 +216,10 @@ var plainStyledSkipPairs = map[string]string{
 // replaced by Latin words) converted by the library, destination bytes compared with the conversion through the plain
 // view: for these pairs the destination writer ignores everything the source reader sets besides times and text
 // (C07_any_source then applies to the styled document).
+// pairs of plainStyledSkipPairs whose styled conversion has its own Gallina model (coq/Model/Conv<S><F>.v): pair -> driver
+// suite taking (document) and returning the destination bytes; the library's bytes are compared with it
+var plainStyledModels = map[string]string{}
+
 func suiteConvertPlainStyled(R *runner, r *rng) {
 	R.rule("conversion of styled sources through the plain view: styled SubRip, WebVTT with regions/settings/tags/voices, SSA/ASS with styles/script info/override blocks, TTML with styles/regions (run texts = Latin words), every destination among the modelled codecs except the pairs listed with their reason in plainStyledSkipPairs; destination bytes of the library vs convert_plain; pairs with a model of their own (plainStyledModels: srt/vtt/ssa/stl -> ttml, Model/ConvTtml.v) vs that model's convert_S_F")
 	N := 12
@@ -295,12 +299,20 @@ func suiteConvertPlainStyled(R *runner, r *rng) {
 			for _, dst := range plainCodecs {
 				pair := src.name + "->" + dst.name
 				if suite, ok := plainStyledModels[pair]; ok {
+<<<<<<< HEAD
 					// a model of what the destination writer sees of this source's cues exists: compare the bytes with it
 					s2, _ := src.read(doc)
 					var out bytes.Buffer
 					o := &obs{Suite: suite, Group: "styled." + pair, Input: (&enc{}).n(src.code).bytes(doc).String(), NT: true,
 						Human: map[string]interface{}{"source": src.name, "destination": dst.name, "document": string(doc)}}
 					R.count("styled." + pair)
+=======
+					s2, _ := src.read(doc)
+					var out bytes.Buffer
+					o := &obs{Suite: suite, Group: "conv.styled." + pair, Input: (&enc{}).bytes(doc).String(), NT: true,
+						Human: map[string]interface{}{"source": src.name, "destination": dst.name, "document": string(doc)}}
+					R.count("conv.styled." + pair)
+>>>>>>> agent-stl
 					var werr error
 					p := safely(func() { werr = dst.write(s2, &out) })
 					switch {
